@@ -1,4 +1,4 @@
-//! Reproduction (against the real code) of the defect repaired by the "fix:" commit
+//! Reproduction (against the real code) of the defect repaired by the "fix:" commit 450b7548 450b7548
 //! "binary loader materialised rows for a table without columns" (storage persistence/binary/data.rs, read_data).
 //!
 //! Place as crates/vibesql-storage/tests/c20_zero_column_rows.rs and run
